@@ -65,9 +65,7 @@ def lp_sha512 : FormatE := ⟨"lp_sha512", lpShaParse (ofString "$6$") 86, lpSha
 
 /-! ### libpass.inspect.bcrypt
 
-    BCRYPT_HASH_REGEX = r"^\$(?P<prefix>(2a|2b|2y))\$(?P<rounds>\d+)\$(?P<salt>.{22})(?P<hash>.{31})$"   (match!)
-
-`match` + `$`: one trailing "\n" is tolerated. -/
+    BCRYPT_HASH_REGEX = r"^\$(?P<prefix>(2a|2b|2y))\$(?P<rounds>\d+)\$(?P<salt>.{22})(?P<hash>.{31})$"   (fullmatch) -/
 def lpBcryptPrefixes : List Str := [ofString "2a", ofString "2b", ofString "2y"]
 
 def lpBcryptParse (s : Str) : Res (Option Parsed) :=
@@ -86,7 +84,7 @@ def lpBcryptParse (s : Str) : Res (Option Parsed) :=
           | some r2 =>
             let salt := r2.take 22
             let hash := (r2.drop 22).take 31
-            if salt.length = 22 && hash.length = 31 && salt.all isDot && hash.all isDot && atEnd (r2.drop 53) then
+            if salt.length = 22 && hash.length = 31 && salt.all isDot && hash.all isDot && (r2.drop 53).isEmpty then
               (pyInt ds).map fun v => some { ident := pfx, rounds := some v, salt := some salt, checksum := some hash }
             else .ok none
 
@@ -210,7 +208,9 @@ def lpPhcParse (d : PhcDef) (s : Str) : Res (Option Parsed) :=
           -- `int(groups["version"])`
           resBind (match ver with | none => .ok none | some ds => (pyInt ds).map some) fun version =>
           if !(d.ids.contains id && d.version == version) then .ok none
-          else (phcConvert kvs d.params).map fun ex => some { ident := id, salt := some salt, checksum := some hash, extra := ex }
+          else match phcConvert kvs d.params with
+            | .ok ex => .ok (some { ident := id, salt := some salt, checksum := some hash, extra := ex })
+            | .error _ => .ok none          -- `except (KeyError, ValueError): return None`
   match splitChar DOLLAR s with
   | [e, id, v, params, salt, hash] =>
     if !e.isEmpty then .ok none
